@@ -144,6 +144,13 @@ impl Thread {
             thread.previous_pointer = Story::pointer_at_path(main_content_container, &prev_path)?;
         }
 
+        // Every operation on a thread looks at its top element
+        if thread.callstack.is_empty() {
+            return Err(StoryError::BadJson(
+                "thread without call stack elements".to_owned(),
+            ));
+        }
+
         Ok(thread)
     }
 
